@@ -40,6 +40,20 @@ def farthest_rule(cx):
           found=(f"{rd['form']}: op={rd['op']} init={show(rd['init']) if rd['init'] else None} src={show(rd['src']) if rd['src'] else None} elem={show(rd['elem'])[:200]}" if rd else show(r)[:300]))
 
 
+
+def cast_ray_rules(cx):
+    """shared with C03 (an axis-aligned probe through a vertex must be found in every frame)"""
+    b = cx.fn(f'{PL}::cast_ray')
+    if b:
+        r = cx.retval(b)
+        e = match('(agg tuple (0 (phi (call AutoSimd::splat true) (loop))) (1 (phi (call AutoSimd::splat $lo) (loop))))', r)
+        ok = e is not None and e['lo'][0] == 'const' and e['lo'][1] < -1e300
+        cx.ob('EXPR', 'cast_ray:admits-negative', ok, 'tmin starts at f64::MIN (not 0): intersections behind the ray origin are admitted, as the property requires for infinite lines', where=b.file, found=r)
+        sel = [cx.call(s) for s in b.calls('AutoSimd::select')]
+        okz = any(match('(call AutoSimd::select _ (call AutoSimd::simd_ne _ (call AutoSimd::splat 0.0)) (call AutoSimd::bitand (call AutoSimd::simd_ge _ _) (call AutoSimd::simd_le _ _)))', x) is not None for x in sel)
+        cx.ob('EXPR', 'cast_ray:zero-direction-lanes', okz, 'lanes whose direction component is zero use the origin-inside-slab test instead of the division', where=b.file)
+        cx.ob('TERM', 'cast_ray:loop', len(b.loops()) == 1, 'one loop over the two axes')
+
 def run(cx):
     b = cx.fn(f'{PL}::polyline_intersections')
     if b:
@@ -165,15 +179,6 @@ def run(cx):
             g = cx.guarded(b, s.bb, f'(call AutoSimd::extract {MASK} $i)', True)
             ok = g is not None and find('(itervar _)', g['i']) is not None and match('(unwrap _)', cx.arg(s, 1)) is not None
         cx.ob('GUARD', 'RayVisitor::visit:collect', ok, 'a leaf is recorded exactly when its own lane of the mask is set and it carries data', where=b.file)
-    b = cx.fn(f'{PL}::cast_ray')
-    if b:
-        r = cx.retval(b)
-        e = match('(agg tuple (0 (phi (call AutoSimd::splat true) (loop))) (1 (phi (call AutoSimd::splat $lo) (loop))))', r)
-        ok = e is not None and e['lo'][0] == 'const' and e['lo'][1] < -1e300
-        cx.ob('EXPR', 'cast_ray:admits-negative', ok, 'tmin starts at f64::MIN (not 0): intersections behind the ray origin are admitted, as the property requires for infinite lines', where=b.file, found=r)
-        sel = [cx.call(s) for s in b.calls('AutoSimd::select')]
-        okz = any(match('(call AutoSimd::select _ (call AutoSimd::simd_ne _ (call AutoSimd::splat 0.0)) (call AutoSimd::bitand (call AutoSimd::simd_ge _ _) (call AutoSimd::simd_le _ _)))', x) is not None for x in sel)
-        cx.ob('EXPR', 'cast_ray:zero-direction-lanes', okz, 'lanes whose direction component is zero use the origin-inside-slab test instead of the division', where=b.file)
-        cx.ob('TERM', 'cast_ray:loop', len(b.loops()) == 1, 'one loop over the two axes')
+    cast_ray_rules(cx)
     farthest_rule(cx)
 
